@@ -243,7 +243,7 @@ impl AOracle for Oracle {
 /// World-B part: adss shares with arbitrary message / coin lengths and sharks
 /// shares with k y-values cross the wire.
 fn lower_layers(ctx: &mut Ctx) -> Result<(), Violation> {
-    let lens = [0usize, 1, 15, 16, 17, 32, 165, 166, 167, 1000];
+    let lens: Vec<usize> = if ctx.ch.chance(1, 12) { vec![0, 65_535, 65_536, 70_000] } else { vec![0usize, 1, 15, 16, 17, 32, 165, 166, 167, 1000] };
     let t = *ctx.ch.pick(&[0u32, 1, 2, 3, 5, 17, 100]);
     let ml = *ctx.ch.pick(&lens);
     let rl = *ctx.ch.pick(&lens);
@@ -260,7 +260,7 @@ fn lower_layers(ctx: &mut Ctx) -> Result<(), Violation> {
             return Err(Violation::new("c08.layout", "adss share fields", format!("adss share (t={}, |M|={}, |R|={}) deviates from the layout", t, ml, rl)));
         }
         ctx.stats.probe("adss_roundtrips");
-        battery(ctx, Kind::Share, &b, ctx.thorough, &[])?;
+        battery(ctx, Kind::Share, &b, ctx.thorough && b.len() < 5_000, &[])?;
     }
     // sharks: k y-values
     let k = ctx.ch.index(6);
@@ -324,6 +324,13 @@ impl Property for C08 {
         gen.aux_kinds = vec![-1, 0, 4, 200];
         gen.sources = vec![0, 1];
         gen.corrupt_kinds = faults::KINDS.to_vec();
+        // every 12th run: chunks beyond 64 KiB (size-dependent decoder paths)
+        if ctx.ch.chance(1, 12) {
+            gen.meas_lens = vec![6, 70_000];
+            gen.aux_kinds = vec![-1, 65_522, 66_000];
+            gen.max_clients_total = 4;
+            ctx.stats.probe("runs_with_chunks_over_64KiB");
+        }
         // large thresholds are only written to the wire (client counts are capped)
         let net = NetCfg { drop: 0, dup: 100, replay: 0, misdeliver: 0, corrupt: 300, min_latency_us: 1000, jitter_us: 50_000, long_delay: 0, long_delay_us: 0 };
         let mut w = WorldA::build(ctx, gen, net, false);
@@ -345,6 +352,6 @@ impl Property for C08 {
         vec!["the independent parser (models/layout.rs, ~150 lines, num-bigint) encodes the documented layout correctly; it is exercised against the real encoder on every honest message", "decoder panics are C09's subject and are only counted here"]
     }
     fn key_probes(&self) -> Vec<&'static str> {
-        vec!["honest_roundtrips", "both_accept", "both_reject", "accepted_noncanonical_input", "adss_roundtrips", "sharks_roundtrips", "corrupted_deliveries"]
+        vec!["honest_roundtrips", "both_accept", "both_reject", "accepted_noncanonical_input", "adss_roundtrips", "sharks_roundtrips", "corrupted_deliveries", "runs_with_chunks_over_64KiB"]
     }
 }
